@@ -413,10 +413,16 @@ def replay_file(path):
     target = doc["expect"]
     if doc.get("twice"):
         # the same scenario executed twice in this process must give the same trace
-        h1, h2 = scenario_hashes(path), scenario_hashes(path)
+        # (what differs between the executions is only the heap layout, i.e. the addresses of the objects created for
+        # each of them; up to six executions, with some allocations kept alive in between, so that a dependence on
+        # addresses that showed once shows again in this process)
         from .tracewalk import Violation
-        if h1 != h2:
-            return True, [Violation(prop, target["rule"], target["signature"], doc.get("message") or "")], []
+        hs, keep = [], []
+        for rep in range(6):
+            hs.append(scenario_hashes(path))
+            if len(set(hs)) > 1:
+                return True, [Violation(prop, target["rule"], target["signature"], doc.get("message") or "")], []
+            keep.append([(lambda j=j: j) for j in range(37 * (rep + 1))][::2])
         return False, [], []
     if doc.get("xproc"):
         # cross-process determinism: the same scenario in fresh interpreters that differ only in PYTHONHASHSEED
